@@ -353,13 +353,22 @@ fn run_case(seed: u64, idx: usize, thorough: bool, out: &mut Out) {
                     Ok((r, p)) => ("knn_search_with_ef", Ok(r), format!("{:?}", p)),
                     Err(e) => ("knn_search_with_ef", Err(format!("{:#}", e)), String::new()),
                 },
-                2 => match engine.knn_search_batch_with_ef_detailed(&[q.clone(), gen_vec(&mut rng, case.dim, case.metric)], k, ef) {
+                2 => {
+                    // the judged query sits at a seeded position of the batch; its companion is a repeat of an
+                    // earlier query (likely a cache hit) or a fresh one, so hit-then-miss and miss-then-hit
+                    // orders inside one batch are both driven
+                    let companion = if !queries.is_empty() && rng.chance(0.6) { rng.pick(&queries).clone() } else { gen_vec(&mut rng, case.dim, case.metric) };
+                    let pos = rng.usize_below(2);
+                    let batch = if pos == 0 { vec![q.clone(), companion] } else { vec![companion, q.clone()] };
+                    let ef_b = if rng.chance(0.5) { None } else { ef };
+                    match engine.knn_search_batch_with_ef_detailed(&batch, k, ef_b) {
                     Ok(mut v) => {
-                        let (r, p) = v.remove(0);
+                        let (r, p) = v.remove(pos.min(v.len().saturating_sub(1)));
                         ("knn_search_batch_with_ef", Ok(r), format!("{:?}", p))
                     }
                     Err(e) => ("knn_search_batch_with_ef", Err(format!("{:#}", e)), String::new()),
-                },
+                    }
+                }
                 3 => match rt.block_on(engine.knn_search_with_timeouts_with_ef(&q, k, ef)) {
                     Ok((r, p)) => ("knn_search_with_timeouts", Ok(r), format!("{:?}", p)),
                     Err(e) => ("knn_search_with_timeouts", Err(format!("{:#}", e)), String::new()),
